@@ -1080,6 +1080,12 @@ orc_program_append_ds_str (OrcProgram *program, const char *name,
 {
   OrcInstruction *insn;
 
+  if (program->n_insns >= ORC_N_INSNS) {
+    ORC_ERROR ("too many instructions (at most %d): %s", ORC_N_INSNS, name);
+    orc_program_set_error (program, "too many instructions");
+    return;
+  }
+
   insn = program->insns + program->n_insns;
 
   insn->opcode = orc_opcode_find_by_name (name);
@@ -1090,7 +1096,12 @@ orc_program_append_ds_str (OrcProgram *program, const char *name,
   }
   insn->dest_args[0] = orc_program_find_var_by_name (program, arg1);
   insn->src_args[0] = orc_program_find_var_by_name (program, arg2);
-  
+  if (insn->dest_args[0] < 0 || insn->src_args[0] < 0) {
+    ORC_ERROR ("bad operand for opcode: %s", name);
+    orc_program_set_error (program, "bad operand");
+    return;
+  }
+
   program->n_insns++;
 }
 
@@ -1099,6 +1110,12 @@ orc_program_append_dds_str (OrcProgram *program, const char *name,
     const char *arg1, const char *arg2, const char *arg3)
 {
   OrcInstruction *insn;
+
+  if (program->n_insns >= ORC_N_INSNS) {
+    ORC_ERROR ("too many instructions (at most %d): %s", ORC_N_INSNS, name);
+    orc_program_set_error (program, "too many instructions");
+    return;
+  }
 
   insn = program->insns + program->n_insns;
 
@@ -1111,7 +1128,13 @@ orc_program_append_dds_str (OrcProgram *program, const char *name,
   insn->dest_args[0] = orc_program_find_var_by_name (program, arg1);
   insn->dest_args[1] = orc_program_find_var_by_name (program, arg2);
   insn->src_args[0] = orc_program_find_var_by_name (program, arg3);
-  
+  if (insn->dest_args[0] < 0 || insn->dest_args[1] < 0 ||
+      insn->src_args[0] < 0) {
+    ORC_ERROR ("bad operand for opcode: %s", name);
+    orc_program_set_error (program, "bad operand");
+    return;
+  }
+
   program->n_insns++;
 }
 
